@@ -69,6 +69,15 @@ class SimSocket:
     def pending(self):
         return 0
 
+    def readable(self):
+        """what select() would say: data, end of stream or a reset is there."""
+        if self.closed:
+            return False
+        evs = [e for e in self.events if not (e[0] == "chunk" and not e[1])]
+        if not evs:
+            return self.tail == "eof"
+        return evs[0][0] in ("chunk", "eof", "reset")
+
     def recv(self, n):
         if self.closed:
             self.calls += 1
